@@ -108,6 +108,30 @@ type wmod struct {
 	// the static type of what a function with result interface{} returns
 	ifaceResult map[string]string
 	checked     map[string]bool
+	// calls read by the generator that uses the translator (nil: none)
+	callExt func(c *wctx, n *ast.CallExpr, pre *[]wbind) (wval, bool)
+	// structures of imported modules
+	skipStructs map[string]bool
+}
+
+// importFrom: the functions and structures of another generated module are known, not emitted again
+func (m *wmod) importFrom(o *wmod) {
+	for k, v := range o.known {
+		m.known[k] = v
+	}
+	if m.skipStructs == nil {
+		m.skipStructs = map[string]bool{}
+	}
+	_, emitted := o.w.structDecls(o.need, o.skipStructs)
+	for _, t := range emitted {
+		m.skipStructs[t] = true
+	}
+	for t := range o.skipStructs {
+		m.skipStructs[t] = true
+	}
+	for k, v := range o.ifaceResult {
+		m.ifaceResult[k] = v
+	}
 }
 
 func newWmod(w *wworld) *wmod {
@@ -118,6 +142,7 @@ func newWmod(w *wworld) *wmod {
 type wfn struct {
 	m       *wmod
 	p       *wpkg
+	callExt func(c *wctx, n *ast.CallExpr, pre *[]wbind) (wval, bool)
 	base    string
 	what    string
 	helpers []string
@@ -797,6 +822,11 @@ func (c *wctx) args(n *ast.CallExpr, pre *[]wbind) []wval {
 func (c *wctx) call(n *ast.CallExpr, pre *[]wbind) wval {
 	w := c.f.m.w
 	fun := exprString(n.Fun)
+	if c.f.callExt != nil {
+		if v, ok := c.f.callExt(c, n, pre); ok {
+			return v
+		}
+	}
 	// conversions and builtins
 	switch fun {
 	case "len":
@@ -1092,22 +1122,34 @@ func (m *wmod) callee(p *wpkg, key string) *wcallee {
 	if cal, ok := m.known[full]; ok {
 		return cal
 	}
+	fd := p.funcs[key]
+	if fd == nil || fd.Body == nil {
+		refuse("%s not found", full)
+	}
+	return m.calleeFrom(p, key, fd, wLeanFuncName(key), "")
+}
+
+// calleeFrom translates the declaration fd (the function `key` itself, or a variant of it built by a
+// generator: `note` says how it was derived) under the Lean name `lean`
+func (m *wmod) calleeFrom(p *wpkg, key string, fd *ast.FuncDecl, lean, note string) *wcallee {
+	full := p.name + "." + key
 	if m.busy[full] {
 		refuse("%s is recursive", full)
 	}
 	m.busy[full] = true
 	defer delete(m.busy, full)
-	fd := p.funcs[key]
-	if fd == nil || fd.Body == nil {
-		refuse("%s not found", full)
-	}
 	if fd.Type.TypeParams != nil {
 		refuse("%s is generic", full)
 	}
-	p.checkImports(p.fileOf[fd])
-	f := &wfn{m: m, p: p, base: wLeanFuncName(key), used: map[string]bool{}}
+	if orig := p.funcs[key]; orig != nil {
+		p.checkImports(p.fileOf[orig])
+	}
+	f := &wfn{m: m, p: p, base: lean, used: map[string]bool{}, callExt: m.callExt}
 	pos := p.fset.Position(fd.Pos())
 	f.what = fmt.Sprintf("%s `%s`", pos.Filename[strings.LastIndex(pos.Filename, "/")+1:], key)
+	if note != "" {
+		f.what += " (" + note + ")"
+	}
 	cal := &wcallee{lean: f.base}
 	type par struct{ name, typ string }
 	var pars []par
